@@ -47,8 +47,8 @@ ACCESSOR_EXTRA_ERRORS = {
     "as_json_full": (ValueError,),  # relative_package_filepath documents ValueError (stub-only module of a -stubs package elsewhere)
     "getitem": (KeyError,),
 }
-CALL_BUDGET = 3_000_000
-OP_CPU_SECONDS = 4
+CALL_BUDGET = 50_000_000
+OP_CPU_SECONDS = 20
 
 
 class _Timeout(BaseException):
@@ -120,9 +120,10 @@ def _gen_stmt(rng, layout, here, is_init, cfg, idx, in_class=False):
         st = {"s": "class", "name": rng.choice(["C", "C", "h"]), "body": body, "bases": bases}
         if cfg.get("dataclasses") and rng.random() < 0.6:
             # the built-in dataclasses extension synthesises __init__ from the class body and the MRO while loading
-            st["dataclass"] = rng.choice(["dataclass", "dataclasses.dataclass", "dataclass(kw_only=True)"])
+            # (arguments unpacked from a module-level name: the extension looks that name up, and it can be any alias)
+            st["dataclass"] = rng.choice(["dataclass", "dataclasses.dataclass", "dataclass(kw_only=True)", f"dataclass(**{rng.choice(NAMES)})"])
             for j in range(rng.choice([1, 2])):
-                body.insert(rng.randrange(len(body) + 1), {"s": "annattr", "name": rng.choice(NAMES), "default": rng.random() < 0.5})
+                body.insert(rng.randrange(len(body) + 1), {"s": "annattr", "name": rng.choice(NAMES), "default": rng.choice([False, True, f"field(**{rng.choice(NAMES)})"])})
         return st
     target = _gen_target_module(rng, layout, here, cfg)
     spec = target
@@ -161,7 +162,10 @@ def _render_stmt(st, ind=""):
     if s == "attr":
         return f"{ind}{st['name']} = 1\n"
     if s == "annattr":
-        return f"{ind}{st['name']}: int" + (" = 0" if st.get("default") else "") + "\n"
+        default = st.get("default")
+        if isinstance(default, str):
+            return f"{ind}from dataclasses import field\n{ind}{st['name']}: int = {default}\n"
+        return f"{ind}{st['name']}: int" + (" = 0" if default else "") + "\n"
     if s == "class":
         body = "".join(_render_stmt(b, ind + "    ") for b in st["body"]) or f"{ind}    pass\n"
         bases = f"({', '.join(st['bases'])})" if st.get("bases") else ""
@@ -926,7 +930,7 @@ class _Prop:
         "seams": ["pathlib.Path.read_text (ReadSeam: OSError / undecodable / truncated)", "SIGVTALRM CPU alarm + sys.setprofile call budget (termination)", "on_wildcard_expansion recording extension"],
     }
     ASSUMPTIONS = [
-        "termination is decided by a budget of 3,000,000 Python calls per operation (two orders of magnitude above any passing run)",
+        "termination is decided by a budget of 50,000,000 Python calls per operation (the heaviest passing operation seen needed 8.7 million: deep but finite path computations through self-importing packages); a 20 s CPU alarm only selects which runs are repeated under the budget",
         "inspection disallowed: the import graph is purely static",
         "sampling, not enumeration",
     ]
